@@ -93,11 +93,9 @@ static void run_loop(FILE *o, const char *proto, int nmsgs, unsigned seed, bool 
     while (!close_seen && !failed) {
 	iter++;
 	{
-	    bool rxc = bs ? bs_got == bs_total : got == nmsgs;
-	    /* the sender closes only after the receiver has everything: closing a TCP socket that still holds unread
-	       input (TLS session tickets, for one) resets the connection and may destroy data in flight - that is TCP,
-	       not the property under test */
-	    if (sent == nmsgs && rxc && !cli_closed && !failed) {
+	    /* the sender closes as soon as xcm_finish says that everything it sent has been handed down - it never reads;
+	       (before the repair F-06b the server's useless TLS 1.3 session tickets, left unread, turned this close into a reset) */
+	    if (sent == nmsgs && !cli_closed && !failed) {
 		int frc = xcm_finish(cli);
 		if (frc == 0) { xcm_close(cli); cli_closed = true; }
 		else if (errno != EAGAIN) { failed = true; err_no = errno; err_at = "finish"; }
